@@ -161,6 +161,7 @@ public:
 		// And empty() doesn't guarantee the list is still empty after the function returned.
 		//std::lock_guard<Mutex> lockGuard(mutex);
 
+		EVENTPP_VERIF_POINT("cl.empty");
 		return ! head;
 	}
 
@@ -168,15 +169,23 @@ public:
 		return ! empty();
 	}
 
+#ifdef EVENTPP_VERIF
+	// Verification accessors for the generation counter (clock-jump fault injection); not part of the API.
+	Counter verifGetCurrentCounter() const { return currentCounter.load(); }
+	void verifSetCurrentCounter(const Counter value) { currentCounter.store(value); }
+#endif
+
 	Handle append(const Callback & callback)
 	{
 		NodePtr node(doAllocateNode(callback));
 
 		std::lock_guard<Mutex> lockGuard(mutex);
+		EVENTPP_VERIF_ACCESS(this, true, "cl.append");
 
 		if(head) {
 			node->previous = tail;
 			tail->next = node;
+			EVENTPP_VERIF_POINT("cl.append.mid");
 			tail = node;
 		}
 		else {
@@ -192,10 +201,12 @@ public:
 		NodePtr node(doAllocateNode(callback));
 
 		std::lock_guard<Mutex> lockGuard(mutex);
+		EVENTPP_VERIF_ACCESS(this, true, "cl.prepend");
 
 		if(head) {
 			node->next = head;
 			head->previous = node;
+			EVENTPP_VERIF_POINT("cl.prepend.mid");
 			head = node;
 		}
 		else {
@@ -212,10 +223,12 @@ public:
 		//assert(before.expired() || ownsHandle(before));
 
 		NodePtr beforeNode = before.lock();
+		EVENTPP_VERIF_POINT("cl.insert.beforelocked");
 		if(beforeNode) {
 			NodePtr node(doAllocateNode(callback));
 
 			std::lock_guard<Mutex> lockGuard(mutex);
+			EVENTPP_VERIF_ACCESS(this, true, "cl.insert");
 
 			doInsert(node, beforeNode);
 
@@ -233,6 +246,7 @@ public:
 		// It looks like the lock can be put inside the `if` below,
 		// but that doesn't work in multi-threading and cause related unit tests fail.
 		std::lock_guard<Mutex> lockGuard(mutex);
+		EVENTPP_VERIF_ACCESS(this, true, "cl.remove");
 
 		auto node = handle.lock();
 		if(node) {
@@ -246,6 +260,7 @@ public:
 	bool ownsHandle(const Handle & handle) const
 	{
 		std::lock_guard<Mutex> lockGuard(mutex);
+		EVENTPP_VERIF_ACCESS(this, false, "cl.ownsHandle");
 
 		auto node = handle.lock();
 		if(node) {
@@ -329,12 +344,14 @@ private:
 
 		{
 			std::lock_guard<Mutex> lockGuard(mutex);
+			EVENTPP_VERIF_ACCESS(this, false, "cl.traverse.head");
 			node = head;
 		}
 
 		const Counter counter = currentCounter.load(std::memory_order_acquire);
 
 		while(node) {
+			EVENTPP_VERIF_POINT("cl.traverse.counter");
 			if(node->counter != removedCounter && counter >= node->counter) {
 				if(! f(node)) {
 					return false;
@@ -343,6 +360,7 @@ private:
 
 			{
 				std::lock_guard<Mutex> lockGuard(mutex);
+				EVENTPP_VERIF_ACCESS(this, false, "cl.traverse.next");
 				node = node->next;
 			}
 		}
@@ -368,6 +386,7 @@ private:
 	{
 		node->previous = beforeNode->previous;
 		node->next = beforeNode;
+		EVENTPP_VERIF_POINT("cl.insert.mid");
 		if(beforeNode->previous) {
 			beforeNode->previous->next = node;
 		}
@@ -395,7 +414,9 @@ private:
 		// Mark it as deleted, this must be before the assignment of head and tail below,
 		// because node can be a reference to head or tail, and after the assignment, node
 		// can be null pointer.
+		EVENTPP_VERIF_POINT("cl.free.mid");
 		node->counter = removedCounter;
+		EVENTPP_VERIF_POINT("cl.free.marked");
 
 		if(head == node) {
 			head = node->next;
@@ -426,6 +447,7 @@ private:
 		if(result == 0) { // overflow, let's reset all nodes' counters.
 			{
 				std::lock_guard<Mutex> lockGuard(mutex);
+				EVENTPP_VERIF_ACCESS(this, true, "cl.wrap");
 				NodePtr node = head;
 				while(node) {
 					node->counter = 1;
